@@ -332,7 +332,7 @@ func c18E2E(r *vlib.Run) {
 			"--logger", "stdout", "--logLevel", "error", "--files", "/etc/hostname"}
 		useFile := crng.Intn(2) == 0
 		if useFile {
-			lf := home + "/servers.txt"
+			lf := home + "/Servers-PROD.txt"
 			os.WriteFile(lf, []byte(strings.Join(full, "\n")+"\n"), 0644)
 			args = append(args, "--servers", lf)
 		} else {
